@@ -5,7 +5,7 @@ import z3
 from .. import loader, oracles
 from . import tok
 
-BOUNDS = {"quick": dict(N=6, N_init=5), "thorough": dict(N=10, N_init=8)}
+BOUNDS = {"quick": dict(N=6, N_init=6), "thorough": dict(N=10, N_init=9)}
 
 
 def oblig(ctx):
